@@ -126,5 +126,43 @@ def run(ctx):
     known_family(ctx)
 
 
+def many_keys_under_threads(ctx, nkeys, nthreads=8):
+    """every legal value gets a group — also the (nkeys+1)-th distinct one, also while other threads ask for the same ones: several threads walk
+    the same long sequence of distinct ids (int and str forms mixed), far more of them than any bounded memo would hold"""
+    import sys
+    import threading
+    from pyab_experiment.experiment_evaluator import ExperimentEvaluator
+    ev = ExperimentEvaluator('def e { salt: "m" splitters: u return "a" weighted 1, "b" weighted 1, "c" weighted 2 }')
+    errors = []
+
+    def worker(tid):
+        try:
+            for k in range(nkeys):
+                if errors:
+                    return
+                v = k if (k + tid) % 2 else str(k)
+                g = ev(u=v)
+                if g not in ("a", "b", "c"):
+                    errors.append({"unit": repr(v), "got": repr(g)})
+        except Exception as ex:  # noqa
+            errors.append({"thread": tid, "error": repr(ex)[:200], "after_keys": k})
+    old = sys.getswitchinterval()
+    sys.setswitchinterval(1e-6)
+    try:
+        ths = [threading.Thread(target=worker, args=(i,)) for i in range(nthreads)]
+        for t in ths:
+            t.start()
+        for t in ths:
+            t.join()
+    finally:
+        sys.setswitchinterval(old)
+    ctx.count("many-keys-under-threads", nkeys * nthreads)
+    for e in errors[:1]:
+        ctx.violation(f"{nthreads} threads asking one evaluator for {nkeys} distinct legal ids each: {json.dumps(e)[:200]}", e)
+
+
 def search(ctx):
+    many_keys_under_threads(ctx, 160000)
+    if ctx.new_violations():
+        return
     progcases.run_cases(ctx, make_cases(ctx, 2000), check_model=False, want_stages=False)
